@@ -95,6 +95,8 @@ def rand_arg(rng, depth=3, bad_at=None, level=0):
 
 def shape_of(a):
     k = a["k"]
+    if k == "dup":
+        return "same-container-x%d%s" % (a["n"], "/nested" if a["nest"] else "")
     if k == "list":
         d = _depth(a)
         return "%s/depth%d%s" % (a["t"], min(d, 6), "/bad" if _has_bad(a) else "")
@@ -108,17 +110,25 @@ def shape_of(a):
 
 
 def _depth(a):
+    if a["k"] == "dup":
+        return 1 + _depth(a["c"])
     if a["k"] != "list":
         return 0
     return 1 + max([_depth(c) for c in a["c"]] or [0])
 
 
 def _has_bad(a):
+    if a["k"] == "dup":
+        return _has_bad(a["c"])
     return a["k"] == "bad" or (a["k"] == "list" and any(_has_bad(c) for c in a["c"]))
 
 
 def rand_history(rng, n_ops):
     def arg(allow_bad=True):
+        if rng.random() < 0.06:
+            # one container object supplied several times within the same argument
+            inner = {"k": "list", "t": rng.choice(["list", "tuple", "taglist"]), "c": [rand_arg(rng, 1) for _ in range(rng.randint(1, 3))]}
+            return {"k": "dup", "c": inner, "n": rng.choice([2, 3]), "nest": rng.random() < 0.5}
         bad = None
         if allow_bad and rng.random() < 0.18:
             bad = rng.choice([0, 0, 1, 2, 3])
